@@ -391,6 +391,496 @@ Proof.
   split; vm_compute; reflexivity.
 Qed.
 
+(* ================================================= assignments and foreign frames *)
+
+(** Once a member can be moved or resized (BaseShape.left / top / width / height, on a
+    shape or on a group) or a group frame comes from another producer, a group need not
+    be the bounding box of its members any more, and python-pptx does not make it so at
+    that moment.  What the code maintains is this: a group is seen by the group that
+    contains it through its own a:off / a:ext (never through its members or its
+    a:chOff / a:chExt); an addition at path p gives every group on the path from the
+    receiving group up to the slide the bounding box of its members' own frames
+    (off = chOff, ext = chExt); an assignment at path p writes one number of the member
+    at p and nothing else.  Hence the only groups that can differ from the bounding box
+    of their members' frames are those whose own frame or whose member's frame was
+    assigned since the last addition at or below them: the dirty set below. *)
+
+Fixpoint is_prefix (q p : list nat) : bool :=
+  match q, p with
+  | [], _ => true
+  | i :: q', j :: p' => Nat.eqb i j && is_prefix q' p'
+  | _ :: _, [] => false
+  end.
+
+(** The shape at path [q], when there is one, has the box of its members' frames. *)
+Definition okq (q : list nat) (s : shape) : bool :=
+  match sub_at q s with Some t => shape_okb t | None => true end.
+Definition slide_okq (q : list nat) (sl : slide) : bool :=
+  match slide_at q sl with Some t => shape_okb t | None => true end.
+
+Lemma okq_cons i q s :
+  okq (i :: q) s = match nth_error (kids_of s) i with Some k => okq q k | None => true end.
+Proof. unfold okq. cbn. destruct (nth_error (kids_of s) i); reflexivity. Qed.
+
+Lemma slide_okq_cons i q sl :
+  slide_okq (i :: q) sl = match nth_error sl i with Some k => okq q k | None => true end.
+Proof. unfold slide_okq, okq. cbn. destruct (nth_error sl i); reflexivity. Qed.
+
+Lemma nth_error_set_nth_other {A} (l : list A) : forall i j a k,
+  nth_error l j = Some k -> i <> j -> nth_error (set_nth j a l) i = nth_error l i.
+Proof.
+  unfold set_nth.
+  induction l as [|b l IH]; intros [|i] [|j] a k H Hij; cbn in *;
+    try discriminate; try congruence; auto.
+  eapply IH; eauto.
+Qed.
+
+Lemma consistent_sub q : forall s t,
+  consistentb s = true -> sub_at q s = Some t -> consistentb t = true.
+Proof.
+  induction q as [|i q IH]; intros s t Hs H; cbn in H.
+  - inversion H; subst; auto.
+  - destruct (nth_error (kids_of s) i) as [k|] eqn:En; try discriminate.
+    destruct s as [x y cx cy|g kids]; cbn in En; [destruct i; discriminate|].
+    cbn in Hs. apply andb_true_iff in Hs as [_ Hk].
+    eapply IH; eauto. eapply forallb_nth_error; eauto.
+Qed.
+
+Lemma consistent_shape_ok t : consistentb t = true -> shape_okb t = true.
+Proof. destruct t as [x y cx cy|g kids]; cbn; auto. intros H. apply andb_true_iff in H as [H _]. exact H. Qed.
+
+Lemma consistent_okq s : consistentb s = true -> forall q, okq q s = true.
+Proof.
+  intros Hs q. unfold okq. destruct (sub_at q s) as [t|] eqn:E; auto.
+  apply consistent_shape_ok. eapply consistent_sub; eauto.
+Qed.
+
+Lemma okq_consistent : forall s, (forall q, okq q s = true) -> consistentb s = true.
+Proof.
+  fix IH 1. intros [x y cx cy|g kids] H; [reflexivity|].
+  cbn. apply andb_true_iff. split.
+  - exact (H []).
+  - assert (Hk : forall i k, nth_error kids i = Some k -> forall q, okq q k = true).
+    { intros i k E q. specialize (H (i :: q)). rewrite okq_cons in H. cbn in H.
+      rewrite E in H. exact H. }
+    clear H. induction kids as [|k r IHr]; [reflexivity|].
+    cbn. apply andb_true_iff. split.
+    + apply IH. exact (Hk 0%nat k eq_refl).
+    + apply IHr. intros i k' E. exact (Hk (S i) k' E).
+Qed.
+
+(** Recursive consistency of a slide says the same as: every path is clean. *)
+Lemma all_consistent_iff sl :
+  forallb consistentb sl = true <-> (forall q, slide_okq q sl = true).
+Proof.
+  split.
+  - intros Hs [|i q]; [reflexivity|]. rewrite slide_okq_cons.
+    destruct (nth_error sl i) as [k|] eqn:En; auto.
+    apply consistent_okq. eapply forallb_nth_error; eauto.
+  - intros H. apply forallb_forall. intros s Hin.
+    apply In_nth_error in Hin as [i En].
+    apply okq_consistent. intros q. specialize (H (i :: q)).
+    rewrite slide_okq_cons, En in H. exact H.
+Qed.
+
+(** An addition, on any tree whatsoever: every group on the path (the prefixes of [p])
+    ends up clean; every other path that was clean stays clean, the paths into the new
+    member being as clean as the new member is. *)
+Lemma add_in_okq p : forall new s s' q,
+  add_in p new s = Ok s' ->
+  (is_prefix q p = true \/ (okq q s = true /\ forall r, okq r new = true)) ->
+  okq q s' = true.
+Proof.
+  induction p as [|j p IH]; intros new [x y cx cy|g kids] s' q H Hq; cbn in H; try discriminate.
+  - destruct (recalc_g (kids ++ [new])) as [g'|] eqn:Er; cbn in H; inversion H; subst; clear H.
+    destruct q as [|i q].
+    + unfold okq; cbn. exact (recalc_g_box _ _ Er).
+    + destruct Hq as [Hq|[Hq Hn]]; [cbn in Hq; discriminate|].
+      rewrite okq_cons in *. cbn [kids_of] in *.
+      destruct (Nat.lt_ge_cases i (length kids)) as [Hi|Hi].
+      * rewrite nth_error_app1 by exact Hi. exact Hq.
+      * rewrite nth_error_app2 by exact Hi.
+        destruct (i - length kids)%nat as [|n]; cbn; [apply Hn|]. destruct n; reflexivity.
+  - destruct (nth_error kids j) as [k|] eqn:En; try discriminate.
+    destruct (add_in p new k) as [k'|e] eqn:Ea; cbn in H; try discriminate.
+    destruct (recalc_g (set_nth j k' kids)) as [g'|] eqn:Er; cbn in H; inversion H; subst; clear H.
+    destruct q as [|i q].
+    + unfold okq; cbn. exact (recalc_g_box _ _ Er).
+    + rewrite okq_cons in *. cbn [kids_of is_prefix] in *.
+      destruct (Nat.eq_dec i j) as [->|Hij].
+      * rewrite (nth_error_set_nth _ _ _ _ En). rewrite En, Nat.eqb_refl in Hq. cbn in Hq.
+        eapply IH; eauto.
+      * rewrite (nth_error_set_nth_other _ _ _ _ _ En Hij).
+        destruct Hq as [Hq|[Hq _]]; [|exact Hq].
+        apply Nat.eqb_neq in Hij. rewrite Hij in Hq. cbn in Hq. discriminate.
+Qed.
+
+Lemma slide_add_okq p new sl sl' q :
+  slide_add p new sl = Ok sl' ->
+  (is_prefix q p = true \/ (slide_okq q sl = true /\ forall r, okq r new = true)) ->
+  slide_okq q sl' = true.
+Proof.
+  unfold slide_add. destruct q as [|i q]; [reflexivity|].
+  destruct p as [|j p]; intros H Hq.
+  - inversion H; subst; clear H.
+    destruct Hq as [Hq|[Hq Hn]]; [cbn in Hq; discriminate|].
+    rewrite slide_okq_cons in *.
+    destruct (Nat.lt_ge_cases i (length sl)) as [Hi|Hi].
+    + rewrite nth_error_app1 by exact Hi. exact Hq.
+    + rewrite nth_error_app2 by exact Hi.
+      destruct (i - length sl)%nat as [|n]; cbn; [apply Hn|]. destruct n; reflexivity.
+  - destruct (nth_error sl j) as [k|] eqn:En; try discriminate.
+    destruct (add_in p new k) as [k'|e] eqn:Ea; cbn in H; try discriminate.
+    inversion H; subst; clear H.
+    rewrite slide_okq_cons in *. cbn [is_prefix] in Hq.
+    destruct (Nat.eq_dec i j) as [->|Hij].
+    + rewrite (nth_error_set_nth _ _ _ _ En). rewrite En, Nat.eqb_refl in Hq. cbn in Hq.
+      eapply add_in_okq; eauto.
+    + rewrite (nth_error_set_nth_other _ _ _ _ _ En Hij).
+      destruct Hq as [Hq|[Hq _]]; [|exact Hq].
+      apply Nat.eqb_neq in Hij. rewrite Hij in Hq. cbn in Hq. discriminate.
+Qed.
+
+(** ---- an update of the member at a path that keeps its members ---- *)
+
+Definition keeps_kids (u : shape -> res shape) : Prop :=
+  forall s s', u s = Ok s' -> kids_of s' = kids_of s.
+
+Lemma assign_node_keeps f v : keeps_kids (assign_node f v).
+Proof.
+  intros s s'. unfold assign_node. destruct (fld_ok f v); try discriminate.
+  intros H; inversion H; subst. destruct s; destruct f; reflexivity.
+Qed.
+
+Lemma reframe_node_keeps g0 : keeps_kids (reframe_node g0).
+Proof. intros [x y cx cy|g kids] s' H; cbn in H; try discriminate. inversion H; reflexivity. Qed.
+
+Lemma assign_reframe_keep f v g : keeps_kids (assign_node f v) /\ keeps_kids (reframe_node g).
+Proof. exact (conj (assign_node_keeps f v) (reframe_node_keeps g)). Qed.
+
+(** What an update leaves literally unchanged: every group walked through keeps its
+    xfrm (nothing is recalculated) and all its members but the one on the path; the
+    member at the path becomes what [u] makes of it. *)
+Fixpoint upd_frame (p : list nat) (u : shape -> res shape) (s s' : shape) {struct p} : Prop :=
+  match p with
+  | [] => u s = Ok s'
+  | i :: p' =>
+      match s, s' with
+      | Grp g kids, Grp g' kids' =>
+          g' = g /\ exists k k', nth_error kids i = Some k /\ kids' = set_nth i k' kids /\
+                                 upd_frame p' u k k'
+      | _, _ => False
+      end
+  end.
+
+Lemma upd_in_frame p : forall u s s', upd_in p u s = Ok s' -> upd_frame p u s s'.
+Proof.
+  induction p as [|i p IH]; intros u s s' H; cbn in *; auto.
+  destruct s as [x y cx cy|g kids]; try discriminate.
+  destruct (nth_error kids i) as [k|] eqn:En; try discriminate.
+  destruct (upd_in p u k) as [k'|e] eqn:Eu; cbn in H; try discriminate.
+  inversion H; subst. split; auto. exists k, k'. repeat split; auto.
+Qed.
+
+(** The same in terms of paths: the member at [p] is updated ... *)
+Lemma upd_in_at p : forall u s s',
+  upd_in p u s = Ok s' -> exists t t', sub_at p s = Some t /\ u t = Ok t' /\ sub_at p s' = Some t'.
+Proof.
+  induction p as [|i p IH]; intros u s s' H; cbn in H.
+  - exists s, s'. auto.
+  - destruct s as [x y cx cy|g kids]; try discriminate.
+    destruct (nth_error kids i) as [k|] eqn:En; try discriminate.
+    destruct (upd_in p u k) as [k'|e] eqn:Eu; cbn in H; try discriminate.
+    inversion H; subst; clear H. destruct (IH _ _ _ Eu) as (t & t' & A & B & C).
+    exists t, t'. cbn. rewrite En, (nth_error_set_nth _ _ _ _ En). auto.
+Qed.
+
+(** ... every path that does not lead through [p] on the way down (it branches off, or
+    it continues below [p]) reaches the same term as before ... *)
+Lemma upd_in_off_path p : forall u s s' q,
+  keeps_kids u -> upd_in p u s = Ok s' -> is_prefix q p = false -> sub_at q s' = sub_at q s.
+Proof.
+  induction p as [|j p IH]; intros u s s' q Hu H Hq; cbn in H.
+  - destruct q as [|i q]; [cbn in Hq; discriminate|]. cbn. rewrite (Hu _ _ H). reflexivity.
+  - destruct s as [x y cx cy|g kids]; try discriminate.
+    destruct (nth_error kids j) as [k|] eqn:En; try discriminate.
+    destruct (upd_in p u k) as [k'|e] eqn:Eu; cbn in H; try discriminate.
+    inversion H; subst; clear H.
+    destruct q as [|i q]; [cbn in Hq; discriminate|]. cbn [is_prefix] in Hq. cbn.
+    destruct (Nat.eq_dec i j) as [->|Hij].
+    + rewrite (nth_error_set_nth _ _ _ _ En), En. rewrite Nat.eqb_refl in Hq. cbn in Hq.
+      eapply IH; eauto.
+    + rewrite (nth_error_set_nth_other _ _ _ _ _ En Hij). reflexivity.
+Qed.
+
+(** ... and every group strictly above [p] keeps its xfrm, whatever happened below. *)
+Lemma upd_in_above p : forall u s s' q,
+  upd_in p u s = Ok s' -> is_prefix q p = true -> q <> p ->
+  exists g kids kids', sub_at q s = Some (Grp g kids) /\ sub_at q s' = Some (Grp g kids').
+Proof.
+  induction p as [|j p IH]; intros u s s' q H Hq Hne; cbn in H.
+  - destruct q; [congruence|cbn in Hq; discriminate].
+  - destruct s as [x y cx cy|g kids]; try discriminate.
+    destruct (nth_error kids j) as [k|] eqn:En; try discriminate.
+    destruct (upd_in p u k) as [k'|e] eqn:Eu; cbn in H; try discriminate.
+    inversion H; subst; clear H.
+    destruct q as [|i q]; [exists g, kids, (set_nth j k' kids); cbn; auto|].
+    cbn [is_prefix] in Hq. apply andb_true_iff in Hq as [Hij Hq].
+    apply Nat.eqb_eq in Hij. subst i. cbn.
+    rewrite En, (nth_error_set_nth _ _ _ _ En). eapply IH; eauto. congruence.
+Qed.
+
+(** The box a group computes depends on its members only through their own frames. *)
+Definition ce_of (xs ys xr yb : list Z) : Z * Z * Z * Z :=
+  match xs, ys, xr, yb with
+  | x :: xs', y :: ys', r :: xr', b :: yb' =>
+      (min_list x xs', min_list y ys', max_list r xr' - min_list x xs', max_list b yb' - min_list y ys')
+  | _, _, _, _ => (0, 0, 0, 0)
+  end.
+
+Lemma child_extents_maps kids :
+  child_extents kids = ce_of (map sh_x kids) (map sh_y kids)
+                             (map (fun s => sh_x s + sh_cx s) kids) (map (fun s => sh_y s + sh_cy s) kids).
+Proof. destruct kids; reflexivity. Qed.
+
+Lemma map_set_nth_same {A B} (f : A -> B) (l : list A) : forall j k k',
+  nth_error l j = Some k -> f k' = f k -> map f (set_nth j k' l) = map f l.
+Proof.
+  unfold set_nth.
+  induction l as [|b l IH]; intros [|j] k k' H E; cbn in *; try discriminate.
+  - inversion H; subst. rewrite E. reflexivity.
+  - f_equal. eapply IH; eauto.
+Qed.
+
+Lemma box_okb_set_nth g kids j k k' :
+  nth_error kids j = Some k ->
+  sh_x k' = sh_x k -> sh_y k' = sh_y k -> sh_cx k' = sh_cx k -> sh_cy k' = sh_cy k ->
+  box_okb g (set_nth j k' kids) = box_okb g kids.
+Proof.
+  intros En Ex Ey Ecx Ecy. unfold box_okb. rewrite !child_extents_maps.
+  rewrite (map_set_nth_same sh_x _ _ _ _ En Ex), (map_set_nth_same sh_y _ _ _ _ En Ey).
+  rewrite (map_set_nth_same (fun s => sh_x s + sh_cx s) _ _ _ _ En) by congruence.
+  rewrite (map_set_nth_same (fun s => sh_y s + sh_cy s) _ _ _ _ En) by congruence.
+  reflexivity.
+Qed.
+
+Lemma upd_in_own_frame : forall p u s s',
+  p <> [] -> upd_in p u s = Ok s' ->
+  sh_x s' = sh_x s /\ sh_y s' = sh_y s /\ sh_cx s' = sh_cx s /\ sh_cy s' = sh_cy s.
+Proof.
+  intros [|i p] u s s' Hp H; [congruence|]. cbn in H.
+  destruct s as [x y cx cy|g kids]; try discriminate.
+  destruct (nth_error kids i) as [k|]; try discriminate.
+  destruct (upd_in p u k) as [k'|e]; cbn in H; try discriminate.
+  inversion H; subst. cbn. auto.
+Qed.
+
+Lemma removelast_cons {A} (a : A) l : l <> [] -> removelast (a :: l) = a :: removelast l.
+Proof. destruct l; [congruence|reflexivity]. Qed.
+
+(** An update at [p] can make at most two paths dirty: [p] itself (its own frame
+    changed: it may now differ from the box of its members) and the group that contains
+    it (one of its members changed frame).  Every other path is exactly as clean as
+    before, in particular every group further up. *)
+Lemma upd_in_okq p : forall u s s' q,
+  keeps_kids u -> upd_in p u s = Ok s' -> q <> p -> q <> removelast p ->
+  okq q s' = okq q s.
+Proof.
+  induction p as [|j p IH]; intros u s s' q Hu H Hne Hpar; cbn in H.
+  - destruct q as [|i q]; [congruence|]. rewrite !okq_cons, (Hu _ _ H). reflexivity.
+  - destruct s as [x y cx cy|g kids]; try discriminate.
+    destruct (nth_error kids j) as [k|] eqn:En; try discriminate.
+    destruct (upd_in p u k) as [k'|e] eqn:Eu; cbn in H; try discriminate.
+    inversion H; subst; clear H.
+    destruct q as [|i q].
+    + assert (Hp : p <> []) by (intros ->; apply Hpar; reflexivity).
+      destruct (upd_in_own_frame p u k k' Hp Eu) as (Ex & Ey & Ecx & Ecy).
+      unfold okq; cbn. apply box_okb_set_nth with (k := k); auto.
+    + rewrite !okq_cons. cbn [kids_of].
+      destruct (Nat.eq_dec i j) as [->|Hij].
+      * rewrite (nth_error_set_nth _ _ _ _ En), En.
+        apply (IH u k k' q Hu Eu); [congruence|].
+        destruct p as [|j2 p2]; [cbn; congruence|].
+        rewrite removelast_cons in Hpar by discriminate. congruence.
+      * rewrite (nth_error_set_nth_other _ _ _ _ _ En Hij). reflexivity.
+Qed.
+
+Lemma slide_upd_okq p u sl sl' q :
+  keeps_kids u -> slide_upd p u sl = Ok sl' -> q <> p -> q <> removelast p ->
+  slide_okq q sl' = slide_okq q sl.
+Proof.
+  unfold slide_upd. intros Hu H Hne Hpar.
+  destruct p as [|j p]; try discriminate.
+  destruct (nth_error sl j) as [k|] eqn:En; try discriminate.
+  destruct (upd_in p u k) as [k'|e] eqn:Eu; cbn in H; try discriminate.
+  inversion H; subst; clear H.
+  destruct q as [|i q]; [reflexivity|]. rewrite !slide_okq_cons.
+  destruct (Nat.eq_dec i j) as [->|Hij].
+  - rewrite (nth_error_set_nth _ _ _ _ En), En.
+    apply (upd_in_okq p u k k' q Hu Eu); [congruence|].
+    destruct p as [|j2 p2]; [cbn; congruence|].
+    rewrite removelast_cons in Hpar by discriminate. congruence.
+  - rewrite (nth_error_set_nth_other _ _ _ _ _ En Hij). reflexivity.
+Qed.
+
+(** ---- histories ---- *)
+
+(** The paths that may be unclean, carried along a history: an assignment or a foreign
+    frame at [p] adds [p] and the group containing it; an addition at [p] removes every
+    group on its path (the prefixes of [p]); paths are stable because members are only
+    ever appended. *)
+Definition dirty_step (d : list (list nat)) (op : hop) : list (list nat) :=
+  match op with
+  | HAdd p _ => filter (fun q => negb (is_prefix q p)) d
+  | HSet p _ _ | HFrame p _ => p :: removelast p :: d
+  | HReopen => d
+  end.
+Definition dirty_after (ops : list hop) (d : list (list nat)) : list (list nat) :=
+  fold_left dirty_step ops d.
+
+(** The members the add_* methods create are consistent in themselves (a shape with an
+    xfrm, or an empty group of zeros); the theorem takes any consistent new member. *)
+Definition hop_wf (op : hop) : Prop :=
+  match op with HAdd _ new => consistentb new = true | _ => True end.
+
+Definition clean_except (d : list (list nat)) (sl : slide) : Prop :=
+  forall q, ~ In q d -> slide_okq q sl = true.
+
+Lemma hstep_clean sl op sl' d :
+  hop_wf op -> clean_except d sl -> hstep sl op = Ok sl' -> clean_except (dirty_step d op) sl'.
+Proof.
+  intros Hwf Hc H q Hq. destruct op as [p new|p f v|p g|]; cbn in *.
+  - eapply slide_add_okq; eauto.
+    destruct (is_prefix q p) eqn:Ep; [left; reflexivity|right]. split.
+    + apply Hc. intros Hin. apply Hq. apply filter_In. rewrite Ep. auto.
+    + apply consistent_okq. exact Hwf.
+  - rewrite (slide_upd_okq p _ sl sl' q (assign_node_keeps f v) H); [apply Hc|..]; intuition congruence.
+  - rewrite (slide_upd_okq p _ sl sl' q (reframe_node_keeps g) H); [apply Hc|..]; intuition congruence.
+  - inversion H; subst. auto.
+Qed.
+
+(** Every history of additions, assignments (to shapes and to groups), foreign frames
+    and re-opens, from any start state: every group that is not in the dirty set has
+    off = chOff, ext = chExt = the bounding box of its members' own frames. *)
+Lemma hist_clean ops : forall sl sl' d,
+  Forall hop_wf ops -> clean_except d sl -> hist_run sl ops = Ok sl' ->
+  clean_except (dirty_after ops d) sl'.
+Proof.
+  induction ops as [|op ops IH]; intros sl sl' d Hwf Hc H; cbn in *.
+  - inversion H; subst; auto.
+  - inversion Hwf; subst.
+    destruct (hstep sl op) as [sl1|e] eqn:E; cbn in H; try discriminate.
+    eapply IH; eauto. eapply hstep_clean; eauto.
+Qed.
+
+(** The special case of before: a history of additions only never makes anything
+    dirty, so from a consistent slide (the empty one, say) every group stays the
+    bounding box of its members, recursively. *)
+Definition is_add (op : hop) : Prop := match op with HAdd _ _ => True | _ => False end.
+
+Lemma dirty_adds ops : Forall is_add ops -> dirty_after ops [] = [].
+Proof.
+  induction ops as [|op ops IH]; intros H; [reflexivity|].
+  inversion H; subst. destruct op; cbn in *; try tauto; try (apply IH; auto).
+Qed.
+
+Lemma hist_adds_consistent ops sl sl' :
+  Forall is_add ops -> Forall hop_wf ops ->
+  forallb consistentb sl = true -> hist_run sl ops = Ok sl' -> forallb consistentb sl' = true.
+Proof.
+  intros Ha Hwf Hs H. apply all_consistent_iff. intros q.
+  assert (Hc : clean_except [] sl) by (intros q' _; apply all_consistent_iff; auto).
+  pose proof (hist_clean ops sl sl' [] Hwf Hc H) as Hc'.
+  rewrite (dirty_adds ops Ha) in Hc'. apply Hc'. intros [].
+Qed.
+
+Lemma hist_run_gops ops : forall sl, hist_run sl (map hop_of_gop ops) = slide_run sl ops.
+Proof.
+  induction ops as [|op ops IH]; intros sl; cbn; auto.
+  unfold gstep. destruct (slide_add (go_path op) (member_shape (go_new op)) sl); cbn; auto.
+Qed.
+
+(** [slide_history_consistent] again, this time as the instance of [hist_clean]. *)
+Lemma slide_history_consistent_as_instance ops sl sl' :
+  forallb consistentb sl = true -> slide_run sl ops = Ok sl' -> forallb consistentb sl' = true.
+Proof.
+  intros Hs H. rewrite <- hist_run_gops in H.
+  apply (hist_adds_consistent (map hop_of_gop ops) sl sl'); auto.
+  - apply Forall_forall. intros op Hin. apply in_map_iff in Hin as (o & <- & _). exact I.
+  - apply Forall_forall. intros op Hin. apply in_map_iff in Hin as (o & <- & _).
+    apply member_consistent.
+Qed.
+
+(** After any history whatsoever, one more addition at [p] settles every group on the
+    path of [p], dirty or not. *)
+Lemma hist_then_add ops sl sl1 p new sl2 q :
+  hist_run sl ops = Ok sl1 -> hstep sl1 (HAdd p new) = Ok sl2 ->
+  is_prefix q p = true -> slide_okq q sl2 = true.
+Proof. intros _ H Hq. cbn in H. eapply slide_add_okq; eauto. Qed.
+
+(** Non-vacuity: a nested group scaled and moved as a whole by another producer
+    (shown at 1000000,1000000 with half the size of its child space), the deck
+    re-opened, then a text box added to the OUTER group.  The outer group becomes the
+    bounding box of its three members, the nested group counting with its own frame
+    (not with the 4000000 x 2000000 child space of its members), the nested group is
+    untouched and is the one path left dirty; the slide is not recursively consistent. *)
+Definition scaled_inner : gxf := mkG 1000000 1000000 2000000 1000000 0 0 4000000 2000000.
+Definition scaled_ops : list hop :=
+  [HAdd [] (Grp gxf0 []);
+   HAdd [0%nat] (Leaf 1500000 1200000 500000 500000);
+   HAdd [0%nat] (Grp gxf0 []);
+   HAdd [0%nat; 1%nat] (Leaf 0 0 4000000 2000000);
+   HAdd [0%nat; 1%nat] (Leaf 1000000 0 3000000 2000000);
+   HFrame [0%nat; 1%nat] scaled_inner;
+   HReopen;
+   HAdd [0%nat] (Leaf 2500000 1500000 1000000 300000)].
+Definition scaled_result : slide :=
+  [Grp (mkG 1000000 1000000 2500000 1000000 1000000 1000000 2500000 1000000)
+     [Leaf 1500000 1200000 500000 500000;
+      Grp scaled_inner [Leaf 0 0 4000000 2000000; Leaf 1000000 0 3000000 2000000];
+      Leaf 2500000 1500000 1000000 300000]].
+
+Lemma scaled_example :
+  hist_run [] scaled_ops = Ok scaled_result /\ Forall hop_wf scaled_ops /\
+  dirty_after scaled_ops [] = [[0%nat; 1%nat]] /\
+  slide_okq [0%nat] scaled_result = true /\ slide_okq [0%nat; 1%nat] scaled_result = false /\
+  forallb consistentb scaled_result = false.
+Proof.
+  split; [vm_compute; reflexivity|]. split; [repeat constructor|].
+  repeat split; vm_compute; reflexivity.
+Qed.
+
+(** Non-vacuity for assignments through the public API: the nested group is moved and
+    widened (group.left, group.width: a:off / a:ext only), one of its members is moved
+    (shape.top); none of this recalculates anything.  An addition to the outer group
+    then settles the outer group only; a later addition inside the nested group settles
+    the nested group too (its frame snaps back to the box of its members) and the
+    outer group again. *)
+Definition moved_ops : list hop :=
+  [HAdd [] (Grp gxf0 []);
+   HAdd [0%nat] (Leaf 100 100 50 50);
+   HAdd [0%nat] (Grp gxf0 []);
+   HAdd [0%nat; 1%nat] (Leaf 10 20 30 40);
+   HSet [0%nat; 1%nat] FLeft 500;
+   HSet [0%nat; 1%nat] FWidth 7;
+   HSet [0%nat; 1%nat; 0%nat] FTop (-5)].
+
+Lemma moved_example :
+  hist_run [] moved_ops
+  = Ok [Grp (mkG 10 20 140 130 10 20 140 130)
+          [Leaf 100 100 50 50; Grp (mkG 500 20 7 40 10 20 30 40) [Leaf 10 (-5) 30 40]]] /\
+  dirty_after moved_ops [] = [[0%nat; 1%nat; 0%nat]; [0%nat; 1%nat]; [0%nat; 1%nat]; [0%nat]; [0%nat; 1%nat]; [0%nat]] /\
+  hist_run [] (moved_ops ++ [HAdd [0%nat] (Leaf 0 0 1 1)])
+  = Ok [Grp (mkG 0 0 507 150 0 0 507 150)
+          [Leaf 100 100 50 50; Grp (mkG 500 20 7 40 10 20 30 40) [Leaf 10 (-5) 30 40]; Leaf 0 0 1 1]] /\
+  dirty_after (moved_ops ++ [HAdd [0%nat] (Leaf 0 0 1 1)]) []
+  = [[0%nat; 1%nat; 0%nat]; [0%nat; 1%nat]; [0%nat; 1%nat]; [0%nat; 1%nat]] /\
+  hist_run [] (moved_ops ++ [HAdd [0%nat; 1%nat] (Leaf 0 0 1 1)])
+  = Ok [Grp (mkG 0 (-5) 150 155 0 (-5) 150 155)
+          [Leaf 100 100 50 50; Grp (mkG 0 (-5) 40 40 0 (-5) 40 40) [Leaf 10 (-5) 30 40; Leaf 0 0 1 1]]] /\
+  dirty_after (moved_ops ++ [HAdd [0%nat; 1%nat] (Leaf 0 0 1 1)]) [] = [[0%nat; 1%nat; 0%nat]].
+Proof. repeat split; vm_compute; reflexivity. Qed.
+
 (* ---- min / max over a non-empty list, and the bounding box in the usual sense ---- *)
 
 Lemma min_list_spec t : forall h,
